@@ -11,10 +11,10 @@ from vf.exprgen import grammar as GR
 from vf.progmodel.run import scratch_dir
 
 _counter = itertools.count()
-FUNC_PARAMS = "x, n, s, xs, ys, ss, d, t, o, m, id=None, G=5, zs=(), Y=7, fn=ident, kl=Node, md=icontract"
+FUNC_PARAMS = "x, n, s, xs, ys, ss, d, t, o, m, id=None, G=5, zs=(), q=None, Y=7, fn=ident, kl=Node, md=icontract"
 
 HEADER = """import icontract
-from vf.exprlib import ident, add, kw, first, p, Node, Mat
+from vf.exprlib import ident, add, kw, first, p, Node, Mat, Q, mkq
 G = %(G)r
 GS = %(GS)r
 GL = %(GL)r
